@@ -33,7 +33,11 @@ fn eval_tcp_throughput_inv(rtt: f64, target_rate_bps: u32) -> f64 {
     let mut a = 0.0;
     let mut b = 1.0;
 
-    loop {
+    // The target may be unreachable (e.g. rtt = 0 or target = 0): never iterate beyond the
+    // resolution of the interval
+    const MAX_ITERATIONS: usize = 64;
+
+    for _ in 0 .. MAX_ITERATIONS {
         let c = (b + a)/2.0;
 
         let rate = eval_tcp_throughput(rtt, c);
@@ -56,6 +60,8 @@ fn eval_tcp_throughput_inv(rtt: f64, target_rate_bps: u32) -> f64 {
             return c;
         }
     }
+
+    return (b + a)/2.0;
 }
 
 #[derive(Debug,PartialEq)]
